@@ -1,9 +1,10 @@
 SPECIFICATION Spec
 CONSTANTS
-  Impl = "asis"
   Full3 = TRUE
 INVARIANT OnlyShipped
 INVARIANT FunctionAgrees
 INVARIANT BestQuality
+INVARIANT Bites
 INVARIANT Emit
+POSTCONDITION ControlsBite
 CHECK_DEADLOCK FALSE
